@@ -463,7 +463,12 @@ CallUnit(P, cal, actuals0, S) ==
       \* locals are initialised after the arguments are bound (initialisers may mention arguments)
       env1 == TLCEval([n \in DOMAIN env0 |-> IF n \in own /\ ~isarg(n) /\ ~BoundComp(n) THEN InitLocal(P, Decl(cal, n), env0) ELSE env0[n]])
       argerr == {i \in 1..Len(cal.args) : IsErr(env0[cal.args[i]]) /\ env0[cal.args[i]].why # "undef"}
-      R == ExecBody(P, cal, cal.body, [env |-> env1, out |-> S.out, st |-> "ok", why |-> ""])
+      \* an internal procedure that stores into host-associated variables needs their declared types:
+      \* the body runs with the host's declarations appended (own declarations shadow them)
+      calx == IF cal.host # "" /\ HasUnit(P, cal.host)
+              THEN [cal EXCEPT !.decls = @ \o SelectSeq(Unit(P, cal.host).decls, LAMBDA d : d.name \notin DeclNames(cal))]
+              ELSE cal
+      R == ExecBody(P, calx, cal.body, [env |-> env1, out |-> S.out, st |-> "ok", why |-> ""])
   IN
   IF argerr # {} THEN [st |-> "err", why |-> "argument-evaluation", env |-> S.env, out |-> S.out, ret |-> Undef]
   ELSE IF R.st = "err" THEN [st |-> "err", why |-> R.why, env |-> S.env, out |-> S.out, ret |-> Undef]
